@@ -1,6 +1,7 @@
 package ir
 
 import (
+	"go/types"
 	"go/token"
 
 	"golang.org/x/tools/go/ssa"
@@ -38,6 +39,10 @@ type Tracer struct {
 	// the trace started in (or was continued into) at all the given call sites
 	// of that function (e.g. unexported helpers with static callers).
 	Up func(*ssa.Function) []ssa.CallInstruction
+	// Fields, when set, makes a read of a field transparent: the trace continues
+	// with the values the program stores into that field (field-based flow, for
+	// small unexported helper objects: `c := &capture{src: f}; … read(c.src)`).
+	Fields func(recv types.Type, field int) []ssa.Value
 	// MaxDepth of the call stack.
 	MaxDepth int
 	leaves   []Leaf
@@ -218,6 +223,20 @@ func (t *Tracer) walkH(v ssa.Value, fr []frame, hist []string, d int) {
 				t.leaf("global", g, g.Name(), hist)
 				return
 			}
+			if vals := aggLiteralVals(x); len(vals) > 0 {
+				for _, v := range vals {
+					t.walkH(v, fr, hist, d+1)
+				}
+				return
+			}
+			if fa, isFA := x.X.(*ssa.FieldAddr); isFA && t.Fields != nil {
+				if vals := t.Fields(fa.X.Type(), fa.Field); len(vals) > 0 {
+					for _, v := range vals {
+						t.walkH(v, nil, hist, d+1)
+					}
+					return
+				}
+			}
 			if p, ok := t.C.PathOf(x); ok {
 				t.leaf("field", x, p.Dotted(), hist)
 				// also remember the root for callers that care
@@ -228,6 +247,12 @@ func (t *Tracer) walkH(v ssa.Value, fr []frame, hist []string, d int) {
 		}
 		t.walkH(x.X, fr, hist, d+1)
 	case *ssa.Field:
+		if vals := aggLiteralVals(x); len(vals) > 0 {
+			for _, v := range vals {
+				t.walkH(v, fr, hist, d+1)
+			}
+			return
+		}
 		if p, ok := t.C.PathOf(x); ok {
 			t.leaf("field", x, p.Dotted(), hist)
 			return
@@ -295,4 +320,249 @@ var StringThrough = map[string]bool{
 	"strings.TrimSuffix": true, "strings.TrimPrefix": true, "strings.TrimSpace": true, "strings.Replace": true,
 	"strings.ReplaceAll": true, "strings.Join": true, "strings.ToLower": true, "strings.Trim": true,
 	"os.ExpandEnv": true, "path/filepath.Abs": true,
+}
+
+// aggLiteralVals: v reads a field of (an element of) a local composite literal
+// - `sinks := [...]T{{a, b}, {c, d}}; for _, s := range sinks { use(s.f) }` -
+// and the result is what the literal stores into that field (of any element).
+func aggLiteralVals(v ssa.Value) []ssa.Value {
+	var base ssa.Value
+	field := -1
+	switch x := v.(type) {
+	case *ssa.Field:
+		field = x.Field
+		if u, ok := x.X.(*ssa.UnOp); ok && u.Op == token.MUL {
+			base = u.X
+		}
+	case *ssa.UnOp:
+		if fa, ok := x.X.(*ssa.FieldAddr); ok && x.Op == token.MUL {
+			field, base = fa.Field, fa.X
+		}
+	}
+	if base == nil || field < 0 {
+		return nil
+	}
+	var al *ssa.Alloc
+	switch b := base.(type) {
+	case *ssa.Alloc:
+		al = b
+	case *ssa.IndexAddr:
+		switch y := b.X.(type) {
+		case *ssa.Alloc:
+			al = y
+		case *ssa.Slice:
+			al, _ = y.X.(*ssa.Alloc)
+		}
+	}
+	// a copy of an element (`for _, s := range lit`, `s := lit[i]`): go to the literal
+	for d := 0; al != nil && d < 3; d++ {
+		var whole []ssa.Value
+		nField := 0
+		if al.Referrers() != nil {
+			for _, r := range *al.Referrers() {
+				switch x := r.(type) {
+				case *ssa.Store:
+					if x.Addr == ssa.Value(al) {
+						whole = append(whole, x.Val)
+					}
+				case *ssa.FieldAddr:
+					if x.Referrers() != nil {
+						for _, r2 := range *x.Referrers() {
+							if st, ok := r2.(*ssa.Store); ok && st.Addr == ssa.Value(x) {
+								nField++
+							}
+						}
+					}
+				}
+			}
+		}
+		if len(whole) != 1 || nField > 0 {
+			break
+		}
+		var src *ssa.Alloc
+		switch w := whole[0].(type) {
+		case *ssa.Index:
+			if u, ok := w.X.(*ssa.UnOp); ok && u.Op == token.MUL {
+				src, _ = u.X.(*ssa.Alloc)
+			}
+		case *ssa.UnOp:
+			if w.Op == token.MUL {
+				switch y := w.X.(type) {
+				case *ssa.Alloc:
+					src = y
+				case *ssa.IndexAddr:
+					switch z := y.X.(type) {
+					case *ssa.Alloc:
+						src = z
+					case *ssa.Slice:
+						src, _ = z.X.(*ssa.Alloc)
+					}
+				}
+			}
+		}
+		if src == nil {
+			break
+		}
+		al = src
+	}
+	if al == nil || al.Referrers() == nil {
+		return nil
+	}
+	var out []ssa.Value
+	collect := func(addr ssa.Value) {
+		refs := addr.Referrers()
+		if refs == nil {
+			return
+		}
+		for _, r := range *refs {
+			if fa, ok := r.(*ssa.FieldAddr); ok && fa.Field == field && fa.Referrers() != nil {
+				for _, r2 := range *fa.Referrers() {
+					if st, ok := r2.(*ssa.Store); ok && st.Addr == ssa.Value(fa) {
+						out = append(out, st.Val)
+					}
+				}
+			}
+		}
+	}
+	collect(al)
+	for _, r := range *al.Referrers() {
+		switch x := r.(type) {
+		case *ssa.IndexAddr:
+			collect(x)
+		case *ssa.Slice:
+			if x.Referrers() != nil {
+				for _, r2 := range *x.Referrers() {
+					if ia, ok := r2.(*ssa.IndexAddr); ok {
+						collect(ia)
+					}
+				}
+			}
+		}
+	}
+	return out
+}
+
+// LiteralRows: v reads field `field` of (a copy of) an element of a local
+// composite array / slice literal of structs (`for _, row := range []T{{a, b},
+// {c, d}} { … row.f … }`). rows[j][f] is what the literal stores into field f of
+// element j; alloc identifies the literal.
+func LiteralRows(v ssa.Value) (rows []map[int]ssa.Value, field int, alloc *ssa.Alloc, ok bool) {
+	var base ssa.Value
+	field = -1
+	switch x := v.(type) {
+	case *ssa.Field:
+		field = x.Field
+		if u, isU := x.X.(*ssa.UnOp); isU && u.Op == token.MUL {
+			base = u.X
+		}
+	case *ssa.UnOp:
+		if fa, isF := x.X.(*ssa.FieldAddr); isF && x.Op == token.MUL {
+			field, base = fa.Field, fa.X
+		}
+	}
+	if base == nil || field < 0 {
+		return nil, 0, nil, false
+	}
+	var al *ssa.Alloc
+	switch b := base.(type) {
+	case *ssa.Alloc:
+		al = b
+	case *ssa.IndexAddr:
+		switch y := b.X.(type) {
+		case *ssa.Alloc:
+			al = y
+		case *ssa.Slice:
+			al, _ = y.X.(*ssa.Alloc)
+		}
+	}
+	// a copy of an element: go to the literal (as in aggLiteralVals)
+	for d := 0; al != nil && d < 3; d++ {
+		var whole []ssa.Value
+		if al.Referrers() != nil {
+			for _, r := range *al.Referrers() {
+				if st, isS := r.(*ssa.Store); isS && st.Addr == ssa.Value(al) {
+					whole = append(whole, st.Val)
+				}
+			}
+		}
+		if len(whole) != 1 {
+			break
+		}
+		var src *ssa.Alloc
+		switch w := whole[0].(type) {
+		case *ssa.Index:
+			if u, isU := w.X.(*ssa.UnOp); isU && u.Op == token.MUL {
+				src, _ = u.X.(*ssa.Alloc)
+			}
+		case *ssa.UnOp:
+			if w.Op == token.MUL {
+				switch y := w.X.(type) {
+				case *ssa.Alloc:
+					src = y
+				case *ssa.IndexAddr:
+					switch z := y.X.(type) {
+					case *ssa.Alloc:
+						src = z
+					case *ssa.Slice:
+						src, _ = z.X.(*ssa.Alloc)
+					}
+				}
+			}
+		}
+		if src == nil {
+			break
+		}
+		al = src
+	}
+	if al == nil || al.Referrers() == nil {
+		return nil, 0, nil, false
+	}
+	byIdx := map[int64]map[int]ssa.Value{}
+	var maxIdx int64 = -1
+	addElem := func(ia *ssa.IndexAddr) {
+		k, isC := ConstInt(ia.Index)
+		if !isC || ia.Referrers() == nil {
+			return
+		}
+		for _, r := range *ia.Referrers() {
+			fa, isF := r.(*ssa.FieldAddr)
+			if !isF || fa.Referrers() == nil {
+				continue
+			}
+			for _, r2 := range *fa.Referrers() {
+				if st, isS := r2.(*ssa.Store); isS && st.Addr == ssa.Value(fa) {
+					if byIdx[k] == nil {
+						byIdx[k] = map[int]ssa.Value{}
+					}
+					byIdx[k][fa.Field] = st.Val
+					if k > maxIdx {
+						maxIdx = k
+					}
+				}
+			}
+		}
+	}
+	for _, r := range *al.Referrers() {
+		switch x := r.(type) {
+		case *ssa.IndexAddr:
+			addElem(x)
+		case *ssa.Slice:
+			if x.Referrers() != nil {
+				for _, r2 := range *x.Referrers() {
+					if ia, isI := r2.(*ssa.IndexAddr); isI {
+						addElem(ia)
+					}
+				}
+			}
+		}
+	}
+	if maxIdx < 0 {
+		return nil, 0, nil, false
+	}
+	for k := int64(0); k <= maxIdx; k++ {
+		if byIdx[k] != nil {
+			rows = append(rows, byIdx[k])
+		}
+	}
+	return rows, field, al, len(rows) > 0
 }
